@@ -194,7 +194,35 @@ def check_leg_parallel(bname, acc, only=None):
                 judge_pairs(X, Y, r[1], dict(case, order=order), acc, sig)
 
 
-def check_config(aname, bname, fam, tA, tB, alpha, scale, acc):
+# the tolerance argument of the segment solvers given explicitly, by keyword and by position.  The subdivision
+# solver stops at boxes sqrt(tol) across, so a tol much looser than the default is a request for less accuracy
+# than the property's 1e-5 of the size (tol=1e-7 returns pairs 2e-4 apart, by design): only values whose terminal
+# boxes stay below the property's tolerance are in the alphabet.
+SEG_OPTS = [None, {'tol': 1e-12, 'how': 'keyword'}, {'tol': 1e-11, 'how': 'positional'}, {'tol': 1e-13, 'how': 'positional'}]
+# Path.intersect(other, justonemode=False, tol=1e-12)
+PATH_OPTS = [None, {'justonemode': True, 'how': 'keyword'}, {'justonemode': True, 'how': 'positional'},
+             {'tol': 1e-11, 'how': 'keyword'}, {'justonemode': False, 'tol': 1e-13, 'how': 'positional'},
+             {'justonemode': True, 'tol': 1e-11, 'how': 'positional'}]
+
+
+def seg_isect(X, Y, opt):
+    if not opt:
+        return X.intersect(Y)
+    if opt['how'] == 'positional':
+        return X.intersect(Y, opt['tol'])
+    return X.intersect(Y, tol=opt['tol'])
+
+
+def path_isect(p1, p2, opt):
+    if not opt:
+        return p1.intersect(p2)
+    if opt['how'] == 'positional':
+        args = [opt.get('justonemode', False)] + ([opt['tol']] if 'tol' in opt else [])
+        return p1.intersect(p2, *args)
+    return p1.intersect(p2, **{k: v for k, v in opt.items() if k != 'how'})
+
+
+def check_config(aname, bname, fam, tA, tB, alpha, scale, acc, opt=None):
     A, B = configure(aname, bname, fam, tA, tB, alpha, scale)
     if B is None:
         acc.filt('curve_has_no_node')
@@ -206,10 +234,14 @@ def check_config(aname, bname, fam, tA, tB, alpha, scale, acc):
     ka, kb = kind(A), kind(B)
     general_arcs = ka == 'A' and kb == 'A' and not (isect.is_circ_unrot(A) and isect.is_circ_unrot(B))
     sig = {'pair': ka + kb, 'family': fam}
-    r1 = outcome(lambda: A.intersect(B))
-    r2 = outcome(lambda: B.intersect(A))
+    if opt:
+        case['opt'] = opt
+        sig['options'] = sorted(k for k in opt if k != 'how')
+    r1 = outcome(lambda: seg_isect(A, B, opt))
+    r2 = outcome(lambda: seg_isect(B, A, opt))
     n = len(r1[1]) if r1[0] == 'ok' else -1
-    acc.case(case, cls='%s/%s/%s' % (ka + kb, fam, 'empty' if n == 0 else ('raises' if n < 0 else 'nonempty')), nontrivial=n > 0)
+    acc.case(case, cls=('%s/%s/%s' % (ka + kb, fam, 'empty' if n == 0 else ('raises' if n < 0 else 'nonempty'))) if not opt else
+             'options/segments/%s/%s' % (opt['how'], 'empty' if n == 0 else ('raises' if n < 0 else 'nonempty')), nontrivial=n > 0)
     for r, X, Y, o in ((r1, A, B, 'AB'), (r2, B, A, 'BA')):
         if r[0] != 'ok':
             if general_arcs:
@@ -265,17 +297,39 @@ def build_path(name, shift_=0j, rot=0):
     return Path(*out)
 
 
-def check_paths(n1, n2, sh, rot, acc):
+def check_paths(n1, n2, sh, rot, acc, opt=None):
     p1 = build_path(n1)
     p2 = build_path(n2, sh, rot)
     case = {'what': 'paths', 'p1': n1, 'p2': n2, 'shift': core.jz(sh), 'rot': rot}
     if p1 == p2:
         return
     general = any(isinstance(a, Arc) for a in p1) and any(isinstance(b, Arc) for b in p2)
-    r = outcome(lambda: p1.intersect(p2))
-    n = len(r[1]) if r[0] == 'ok' else -1
-    acc.case(case, cls='paths/%s' % ('empty' if n == 0 else ('raises' if n < 0 else 'nonempty')), nontrivial=n > 0)
     sig = {'pair': 'paths'}
+    if opt:
+        case['opt'] = opt
+        sig['options'] = sorted(k for k in opt if k != 'how')
+    r = outcome(lambda: path_isect(p1, p2, opt))
+    if opt and opt.get('justonemode') and r[0] == 'ok':
+        # one crossing (the first found) instead of a list; nothing found: an empty list
+        full = outcome(lambda: build_path(n1).intersect(build_path(n2, sh, rot)))
+        one = r[1]
+        if full[0] == 'ok':
+            if (len(full[1]) == 0) != (isinstance(one, list) and len(one) == 0):
+                acc.violation('justonemode_disagrees_with_full_answer', sig, case, observed=repr(one)[:300], expected='%d crossings in the full answer' % len(full[1]))
+                return
+            if full[1]:
+                try:
+                    (T1, _, t1), (T2, _, t2) = one
+                    if not any(abs(T1 - f[0][0]) <= 1e-4 and abs(T2 - f[1][0]) <= 1e-4 for f in full[1]):
+                        acc.violation('justonemode_disagrees_with_full_answer', sig, case, observed=[T1, T2],
+                                      expected=[[f[0][0], f[1][0]] for f in full[1]])
+                        return
+                except Exception:
+                    acc.violation('malformed_pair', sig, case, observed=repr(one)[:300])
+                    return
+        r = ('ok', [one] if not isinstance(one, list) else one)
+    n = len(r[1]) if r[0] == 'ok' else -1
+    acc.case(case, cls=('paths/%s' if not opt else 'options/paths/%s') % ('empty' if n == 0 else ('raises' if n < 0 else 'nonempty')), nontrivial=n > 0)
     if r[0] != 'ok':
         if general:
             acc.seen('tolerated_exception_general_arc_arc')
@@ -314,6 +368,10 @@ def shards(tier, seed):
     out += [{'what': 'paths', 'p1': a, 'p2': b} for a in PATHS for b in PATHS]
     out += [{'what': 'leg_parallel', 'B': b} for b in list(AB.LINES) + list(AB.QUADS) + list(AB.CUBICS)]
     out.append({'what': 'nearly_parallel'})
+    # non-default options of the solvers (tol=, justonemode=), keyword and positional
+    out += [{'what': 'segments', 'A': a, 'B': b, 'opt': oi} for a in SMALL_B_SHAPES + ['A_ellipse_3to1'] for b in SMALL_B_SHAPES + ['A_ellipse_3to1']
+            for oi in range(1, len(SEG_OPTS))]
+    out += [{'what': 'paths', 'p1': a, 'p2': b, 'opt': oi} for a in PATHS for b in PATHS for oi in range(1, len(PATH_OPTS))]
     # long paths (grids of crossings; sizes bracket 256 and 4096 segment pairs): reported T coherent with (segment, t)
     out += [{'what': 'grid', 'size': list(sz), 'kinds': k, 'long': lg}
             for sz in (isect.GRID_SIZES_QUICK if tier == 'quick' else isect.GRID_SIZES_THOROUGH)
@@ -333,6 +391,11 @@ def run_shard(desc, tier, seed):
         return acc
     if desc['what'] == 'grid':
         isect.check_grid(desc['size'][0], desc['size'][1], desc['kinds'], desc['long'], acc, ('coherent',), 'C11')
+        return acc
+    if desc['what'] == 'segments' and desc.get('opt'):
+        for fam in ('cross', 'endpoint', 'node', 'far', 'miss_1e-3'):
+            for tA, tB, al in itertools.product(tp['tA'], tp['tB'], tp['alpha'][:2]):
+                check_config(desc['A'], desc['B'], fam, tA, tB, al, 1.0, acc, opt=SEG_OPTS[desc['opt']])
         return acc
     if desc['what'] == 'segments':
         for sc in tp['scales']:
@@ -359,7 +422,7 @@ def run_shard(desc, tier, seed):
     else:
         for sh in (0.37 + 0.21j, 2.3 - 1.1j, -1.7 + 2.9j):
             for rot in (0, 40, 115):
-                check_paths(desc['p1'], desc['p2'], sh, rot, acc)
+                check_paths(desc['p1'], desc['p2'], sh, rot, acc, opt=PATH_OPTS[desc.get('opt', 0)])
     return acc
 
 
@@ -374,7 +437,7 @@ def expected_classes(tier):
 
 def space(tier, seed):
     tp = tier_params(tier, seed)
-    return {'shapes': isect.SHAPES, 'families': FAMILIES, 'tA': tp['tA'], 'tB': tp['tB'], 'angles': tp['alpha'], 'scales': tp['scales'],
+    return {'segment_solver_options': SEG_OPTS, 'path_intersect_options': PATH_OPTS, 'shapes': isect.SHAPES, 'families': FAMILIES, 'tA': tp['tA'], 'tB': tp['tB'], 'angles': tp['alpha'], 'scales': tp['scales'],
             'paths': {k: v if isinstance(v, str) else list(v) for k, v in PATHS.items()}, 'path_shifts': 3, 'path_rotations': [0, 40, 115]}
 
 
@@ -393,7 +456,7 @@ def replay(case):
         isect.check_grid(case['n_comb'], case['n_rungs'], case['kinds'], case['long_stroke'], acc, ('coherent',), 'C11')
         acc.vlist = [v for v in acc.vlist if v['case'].get('order') == case.get('order')]
     elif case['what'] == 'segments':
-        check_config(case['A'], case['B'], case['family'], case['tA'], case['tB'], case['alpha'], case['scale'], acc)
+        check_config(case['A'], case['B'], case['family'], case['tA'], case['tB'], case['alpha'], case['scale'], acc, opt=case.get('opt'))
     else:
-        check_paths(case['p1'], case['p2'], complex(*case['shift']), case['rot'], acc)
+        check_paths(case['p1'], case['p2'], complex(*case['shift']), case['rot'], acc, opt=case.get('opt'))
     return acc.vlist
